@@ -178,6 +178,10 @@ pub struct ReqPlan {
     /// a User-Agent supplied by the caller (the client only adds its own when there is none)
     #[serde(default)]
     pub user_agent: Option<String>,
+    /// a Host header supplied by the caller (a virtual host that differs from the URI's
+    /// authority): over HTTP/1 it must reach the handler as sent
+    #[serde(default)]
+    pub host_header: Option<String>,
     /// the caller sets `te: trailers` (must reach the handler over HTTP/1 and over HTTP/2)
     #[serde(default)]
     pub te_trailers: bool,
@@ -310,6 +314,9 @@ pub fn build_request(origin: &str, p: &ReqPlan, progress: Arc<Mutex<u64>>) -> ht
     }
     if let Some(ua) = &p.user_agent {
         b = b.header(http::header::USER_AGENT, ua.as_str());
+    }
+    if let Some(h) = &p.host_header {
+        b = b.header(http::header::HOST, h.as_str());
     }
     if p.te_trailers {
         b = b.header(http::header::TE, "trailers");
@@ -721,6 +728,7 @@ pub fn gen_request(r: &mut Rng, id: u32, origins: &[OriginCfg], client_alpn_h2: 
         path_form: *r.weighted(&[(10, 0u8), (1, 1), (1, 2)]),
         redirect: None,
         user_agent: if r.chance(1, 5) { Some(format!("caller/{}", id)) } else { None },
+        host_header: if Rng::keyed(id as u64 * 7919 + r.below(1 << 30), "e2e/host").chance(1, 6) { Some(format!("tenant-{}.example", id)) } else { None },
         te_trailers: r.chance(1, 5),
         query: if q.is_empty() { None } else { Some(q.to_string()) },
         extra: if r.bool() { Some(format!("v{}", r.below(1000))) } else { None },
@@ -1124,6 +1132,12 @@ impl Scenario for E2eSim {
                 (None, None) => viol("request_corrupted", json!({"kind": "user_agent"}), format!("request {} arrived without any User-Agent (the client adds a default one)", p.id)),
                 _ => {}
             }
+            // a Host header supplied by the caller is not overridden (HTTP/1; HTTP/2 carries none)
+            if let (Some(want), true, 0) = (&p.host_header, s.version != http::Version::HTTP_2, s.hop) {
+                if s.host.as_deref() != Some(want.as_str()) {
+                    viol("request_corrupted", json!({"kind": "host_header"}), format!("request {} sent Host {:?} but the handler saw {:?} (connection {:?})", p.id, want, s.host, s.version));
+                }
+            }
             if p.te_trailers && !p.upgrade && s.te.as_deref() != Some("trailers") {
                 viol("request_corrupted", json!({"kind": "te_header"}), format!("request {} ({:?}) sent `te: trailers` but the handler saw TE {:?} (connection {:?})", p.id, p.ver, s.te, s.version));
             }
@@ -1135,7 +1149,7 @@ impl Scenario for E2eSim {
                 viol("request_corrupted", json!({"kind": "body_len"}), format!("request {} (hop {}) sent {} body bytes, handler read {}", p.id, s.hop, exp_body, s.body_len));
             }
             // after a redirect the Host header names the new authority (HTTP/1; HTTP/2 has none)
-            if s.hop == 1 && s.version != http::Version::HTTP_2 {
+            if s.hop == 1 && s.version != http::Version::HTTP_2 && p.host_header.is_none() {
                 let u: http::Uri = exp_origin.parse().unwrap();
                 let default_port = if u.scheme_str().map(|x| x.eq_ignore_ascii_case("https")).unwrap_or(false) { 443 } else { 80 };
                 let want = match u.port_u16() {
